@@ -25,6 +25,7 @@ import Alos2.Gen.Layouts
 import Alos2.Proofs.Array
 import Alos2.Proofs.ImageIO
 import Alos2.Proofs.Geometry
+import Alos2.Proofs.LineAddr
 
 namespace Alos2.C01
 
@@ -61,5 +62,33 @@ theorem header_size : Gen.headerSize = headerSize := by decide
 /-- non-vacuity: a 2×2 IU2-like geometry (prefix 12): 752 bytes suffice, and positive sizes hold -/
 example : let g : Geometry := { n := 2, m := 2, bpp := 2, P := 12, code := 11 }
     0 < g.n ∧ 0 < g.bpp ∧ headerSize + g.n * g.L ≤ 752 := by decide
+
+/-- the mechanism itself, on the record layouts regenerated from the source (`Tell` / static prefix / `Tell` / `Seek(record_start
+    + record_length)`): EVERY successful parse of a line record at stream position `pos` yields `record_start = pos`,
+    `data.start = pos + P` (192 resp. 544), `data.stop = pos + record_length`, and the next record starts at `data.stop` -/
+theorem record_addresses (ctx : Ctx) (bs : Bytes) (pos : Nat) (v : Val) (pos' : Nat) :
+    (parse Gen.processedDataRecord ctx bs pos = .ok (v, pos') →
+      ∃ rl : Nat, v.getPath ["preamble", "record_length"] = some (.leaf (.int rl)) ∧
+        v.getPath ["record_start"] = some (.leaf (.int pos)) ∧ v.getPath ["data", "start"] = some (.leaf (.int (pos + 192))) ∧
+        v.getPath ["data", "stop"] = some (.leaf (.int (pos + rl))) ∧ pos' = pos + rl) ∧
+    (parse Gen.signalDataRecord ctx bs pos = .ok (v, pos') →
+      ∃ rl : Nat, v.getPath ["preamble", "record_length"] = some (.leaf (.int rl)) ∧
+        v.getPath ["record_start"] = some (.leaf (.int pos)) ∧ v.getPath ["data", "start"] = some (.leaf (.int (pos + 544))) ∧
+        v.getPath ["data", "stop"] = some (.leaf (.int (pos + rl))) ∧ pos' = pos + rl) :=
+  ⟨processed_record_addresses ctx bs pos v pos', signal_record_addresses ctx bs pos v pos'⟩
+
+/-- … and through the chunk loop of `read_metadata` (layout interpreter, offsets rebased per chunk): in a well-framed image
+    (every preamble declares the header's record length L and the same type t) record i gets the byte range
+    [720 + i·L + P_t, 720 + (i+1)·L), for EVERY positive `records_per_chunk`, short reads included -/
+theorem layout_ranges (file : Bytes) (rpc : Nat) (header : Val) (recs : List Val)
+    (h : readImageRecords file rpc = .ok (header, recs)) (L : Nat) (hL : 0 < L)
+    (hdrL : intAt header ["sar_data_record_length"] = .ok (L : Int))
+    (hrl : ∀ r ∈ recs, intAt r ["preamble", "record_length"] = .ok (L : Int))
+    (t : Nat) (ht : t = 10 ∨ t = 11) (hty : ∀ r ∈ recs, intAt r ["preamble", "record_type"] = .ok (t : Int)) :
+    ∀ i : Nat, ∀ r, recs[i]? = some r →
+      intAt r ["record_start"] = .ok ((720 + i * L : Nat) : Int) ∧
+      intAt r ["data", "start"] = .ok ((720 + i * L + prefixOf t : Nat) : Int) ∧
+      intAt r ["data", "stop"] = .ok ((720 + (i + 1) * L : Nat) : Int) :=
+  readImageRecords_ranges file rpc header recs h L hL hdrL hrl t ht hty
 
 end Alos2.C01
